@@ -4,8 +4,8 @@ import atexit, fcntl, hashlib, json, os, random, shutil, subprocess, sys, time
 VERIF = os.path.dirname(os.path.dirname(os.path.dirname(os.path.abspath(__file__))))
 REPO = os.environ.get("XCP_REPO", "/repo")
 SPEC = os.path.join(VERIF, "spec")
-BUILD = os.path.join(VERIF, "build")
-EVID = os.path.join(VERIF, "evidence")
+BUILD = os.environ.get("XCP_VERIF_BUILD", os.path.join(VERIF, "build"))
+EVID = os.environ.get("XCP_VERIF_EVID", os.path.join(VERIF, "evidence"))
 SCRATCH_BASE = os.environ.get("XCP_VERIF_SCRATCH", "/var/tmp")
 NCPU = os.cpu_count() or 4
 
